@@ -200,7 +200,7 @@ redactNamespaceDocument(ns) ==
 
 \* the tail of the per-key loop of redactPipelineStage (no special operator type applied)
 StageGeneric(c, v, eager, nkp, search) ==
-  IF IsDollar(v) /\ ~eager THEN Keep(v)
+  IF IsDollar(v) THEN DollarOut(v, eager)      \* kept, or its pseudonym under --redactFieldNames (fix 518f870)
   ELSE CASE v.t = "obj" -> redactPipelineStage(c, v, eager, nkp, search)
          [] v.t = "arr" -> redactArrayValues(c, v, eager, search, isRedactableFieldPatternInArray(c, v), nkp)
          [] OTHER       -> redactScalarValue(c, nkp, v, search, FALSE)
@@ -243,6 +243,7 @@ StageSubMap(c, k, v, meta, eager, nkp, search) ==
     ELSE << sk,
             CASE sv.t = "obj" -> redactPipelineStage(c, sv, eager, skp, search)
               [] sv.t = "arr" -> redactArrayValues(c, sv, eager, search, isRedactableFieldPatternInArray(c, sv), skp)
+              [] IsDollar(sv) -> DollarOut(sv, eager)                              \* fix 93ef52c (C15)
               [] OTHER        -> redactScalarValue(c, skp, sv, search, FALSE),     \* whole path since fix (C14)
             hk >>])
 
